@@ -732,6 +732,32 @@ def candidates(rng, desc):
                        ["ref", owner, rn, ["int", rng.randrange(9)], "attr"])
     if ops:
         res.append(("all-pickles", 1.5, ops))
+
+    # ---- cells made from the Formula OBJECT of another cells (Cells.copy, new_cells(formula=...), formula assigned):
+    # what is written is the formula's text, which must be a definition under the NEW cells' name
+    srcs = [c for c in cells if c[2]["source"] is not None]
+    defs = [c for c in srcs if not c[2]["source"].startswith("lambda")]
+    for pool in (defs, srcs):
+        if not pool:
+            continue
+        sp, cn, cd = base._pick(rng, pool)
+        dp, dsd = base._pick(rng, spaces)
+        nm = fresh(FRESH_CELLS, used(dsd))
+        if nm is None:
+            continue
+        src = sp + "." + cn
+        r = rng.random()
+        if r < 0.5:
+            ops = [["ccopy", src, dp, nm]]
+        elif r < 0.8:
+            ops = [["cfrom", dp, nm, src, {}]]
+        else:
+            ops = [["cells", dp, nm, "lambda %s: 0" % ", ".join(cd["parameters"]), {}],
+                   ["fset", dp + "." + nm, src, rng.choice(["attr", "method"])]]
+        if rng.random() < 0.6:
+            ops.append(["input", dp + "." + nm, [rng.randrange(4) for _ in cd["parameters"]],
+                        base.gen_value(rng, base._pick(rng, vkinds), targets, None)])
+        res.append(("cells-copy", 1.2, ops))
     return res
 
 
@@ -879,6 +905,7 @@ PAIRS = [
     (["cells"], ["del-cells"]), (["space"], ["del-space"]), (["space"], ["rename-space"]),
     (["pandas"], ["io-del"]), (["pandas", "input"], ["all-pickles"]), (["doc", "cdoc"], ["doc"]),
     (["input", "ref-pickled", "iinput"], ["all-pickles"]),
+    (["cells-copy", "cells-copy"], ["rename-cells"]),
 ]
 
 
